@@ -13,6 +13,7 @@ HYPOTHESES = []
 NOT_YET_PROVED = []
 ASSUMPTIONS = []
 nontrivial = nontrivial_default
+EXTRA_MODULES = {"Props.TieSecp": "PyEcc.Tie."}
 P_, N_ = O.SECP_P, O.SECP_N
 
 
